@@ -37,15 +37,15 @@ Proof.
   - split; [discriminate|]. intro H. specialize (H _ (or_introl eq_refl)). discriminate.
 Qed.
 
-Lemma trace_sub_all : forall cfg t0 tr m pre, trace_sub_from (seq 0 21) cfg t0 m pre tr = trace_ok_from cfg t0 m pre tr.
+Lemma trace_sub_all : forall cfg t0 tr m pre, trace_sub_from (seq 0 22) cfg t0 m pre tr = trace_ok_from cfg t0 m pre tr.
 Proof.
   intros cfg t0. induction tr as [|[[e o] d] tl IH]; intros m pre; cbn [trace_sub_from trace_ok_from]; [reflexivity|].
   rewrite p_step_components. cbn [fst snd]. rewrite IH. f_equal.
   destruct (String.eqb (first_nonempty (p_components cfg t0 m pre e o d)) "") eqn:E.
   - apply String.eqb_eq in E. apply forallb_forall. intros i Hi. apply String.eqb_eq.
     rewrite first_nonempty_empty_iff in E. apply in_seq in Hi. unfold p_components in *. cbv zeta in *.
-    do 21 (destruct i as [|i]; [apply E; cbn; tauto|]). lia.
-  - destruct (forallb _ (seq 0 21)) eqn:F; [|reflexivity]. exfalso. rewrite forallb_forall in F.
+    do 22 (destruct i as [|i]; [apply E; cbn; tauto|]). lia.
+  - destruct (forallb _ (seq 0 22)) eqn:F; [|reflexivity]. exfalso. rewrite forallb_forall in F.
     assert (Hx : first_nonempty (p_components cfg t0 m pre e o d) = ""%string); [|rewrite Hx in E; discriminate].
     apply first_nonempty_empty_iff. intros x Hx. apply (In_nth _ _ ""%string) in Hx. destruct Hx as [n [Hn <-]].
     apply String.eqb_eq. apply F. apply in_seq. unfold p_components in Hn. cbn in Hn. lia.
